@@ -132,6 +132,8 @@ def general(run, h, rng, proc):
         dt = 1.0 / fs
         width = float(rng.choice([0.0, 0.1, 0.5, 1.0]))
         W = int(rng.choice([1, 2, 3]))
+        if t < 3:
+            W = (70, 150, 129)[t]       # "for several windows": many windows too (an implementation may accumulate in batches)
         pad = rng.choice(["samples", "pad"])
         wins = [rng.normal(size=n) + 0.3 for _ in range(W)]
         recs = [h.SeismicRecording3C(ts(w, dt), ts(w * 0.5, dt), ts(w[::-1], dt)) for w in wins]
